@@ -378,8 +378,9 @@ type BufV struct { // bytes.Buffer model
 }
 
 type RdrV struct { // bytes.Reader model
-	Src SliceV
-	Pos *IntV
+	Src    SliceV
+	Pos    *IntV
+	Failed bool // Exec.ReaderMayFail: the source has failed (sticky): every further Read returns (0, the failure)
 }
 
 // ---------------------------------------------------------------- helpers on IntV
